@@ -50,6 +50,9 @@ def cases(tier, seed):
         for target in ('otherkind', 'plaindir', 'plainfile', 'missing', 'emptydir'):
             for form in ('str', 'Path'):
                 yield {'m': 'wrongkind', 'func': func, 'target': target, 'form': form}
+    for func in ('delete_array', 'delete_raggedarray'):
+        for now in ('plaindir_with_readme', 'otherkind_md', 'plainfile', 'missing'):
+            yield {'m': 'stalehandle', 'func': func, 'now': now}
     for creator in CREATORS:
         for occ in OCCUPANTS:
             for ow in (False, True):
@@ -135,6 +138,8 @@ def run_case(case, env):
             run_delete(case, env, res, parent, outside)
         elif case['m'] == 'wrongkind':
             run_wrongkind(case, env, res, parent, outside)
+        elif case['m'] == 'stalehandle':
+            run_stalehandle(case, env, res, parent, outside)
         else:
             run_create(case, env, res, parent, outside)
         res.nontrivial = True
@@ -241,6 +246,39 @@ def run_wrongkind(case, env, res, parent, outside):
     elif not isinstance(raised, TypeError):
         res.fail(f'wrongkind:wrong-exception:{case["func"]}:{t}:{type(raised).__name__}',
                  f'{cell}: raised {type(raised).__name__} instead of TypeError: {str(raised)[:150]}', **case)
+
+
+def run_stalehandle(case, env, res, parent, outside):
+    """A handle object whose array has been deleted, while the same path now holds something else."""
+    D = env.darr
+    p = parent / 'target'
+    ragged = case['func'] == 'delete_raggedarray'
+    h = (mkragged if ragged else mkarray)(D, p, md={'m': 1})
+    shutil.rmtree(p)
+    now = case['now']
+    if now == 'plaindir_with_readme':
+        p.mkdir()
+        (p / 'README.txt').write_text('my own notes, not Darr\'s')
+        (p / 'arraydescription.json').write_text('{"mine": true}')
+        (p / 'data.csv').write_text('1,2,3')
+    elif now == 'otherkind_md':
+        (mkarray if ragged else mkragged)(D, p, md={'other': 1})
+    elif now == 'plainfile':
+        p.write_bytes(b'a file now')
+    before = snapshot(parent)
+    raised = None
+    try:
+        getattr(D, case['func'])(h)
+    except Exception as e:
+        raised = e
+    after = snapshot(parent)
+    res.count('mon.wrongkind_typeerror')
+    res.dim('stalehandle_cell', f"{case['func']}:{now}")
+    cell = f"{case['func']}(stale handle) while the path now holds {now}"
+    if after != before:
+        res.fail(f'stalehandle:modified:{case["func"]}:{now}', f'{cell}: {snapdiff(before, after)}', **case)
+    elif raised is None:
+        res.fail(f'stalehandle:no-raise:{case["func"]}:{now}', f'{cell}: returned normally', **case)
 
 
 def run_create(case, env, res, parent, outside):
